@@ -203,6 +203,10 @@ impl Ctx {
         }
     }
 
+    pub fn class_count(&self, name: &str) -> u64 {
+        self.merged.lock().unwrap().classes.get(name).copied().unwrap_or(0)
+    }
+
     pub fn extra(&self, key: &str, v: Value) {
         self.merged.lock().unwrap().extra.insert(key.to_string(), v);
     }
@@ -272,6 +276,11 @@ impl Ctx {
         for (part, list) in &m.samples {
             for v in list.iter().take(3) {
                 samples.push(json!({"part": part, "case": v}));
+            }
+        }
+        if samples.is_empty() {
+            for f in failures.iter().take(3) {
+                samples.push(json!({"part": f.part, "case": f.case, "failing": true}));
             }
         }
         let known_hits = self.known_hits.lock().unwrap().clone();
